@@ -194,7 +194,7 @@ func runC06(c *eng.Ctx, tier string) {
 				return
 			}
 			v, _, _ := cond.Bool()
-			hit, path := eng.Search(m.Fn, in, eng.AssumeBool(v, false), func(x ssa.Instruction) bool {
+			hit, path := eng.SearchX(m.Fn, in, eng.AssumeBool(v, false), func(x ssa.Instruction) bool {
 				if ci, ok := x.(ssa.CallInstruction); ok {
 					_, isLog := logging[eng.Callee(ci.Common())]
 					return isLog
@@ -820,15 +820,11 @@ func c06File(c *eng.Ctx) {
 // c06Principal: R-C06-8.
 func c06Principal(c *eng.Ctx) {
 	f := anchor(c.P, "server", "(*Server).getIdentity")
-	if f == nil || len(f.Params) != 2 {
+	if f == nil {
 		c.Undecided("R-C06-8", nil, 0, "server.(*Server).getIdentity", "anchor does not resolve")
 		return
 	}
-	r := f.Params[1]
-	isRemoteAddr := func(v ssa.Value) bool {
-		fr, base, ok := eng.LoadedField(v)
-		return ok && fr.Name == "RemoteAddr" && eng.OriginX(base) == eng.OriginX(r)
-	}
+	isRemoteAddr := func(v ssa.Value) bool { return isRequestAddr(f, v) }
 	var whois, parse *ssa.Call
 	eng.InstrsDeep(f, func(_ *ssa.Function, in ssa.Instruction) {
 		call, ok := in.(*ssa.Call)
